@@ -9,6 +9,7 @@ sys.path.insert(0, os.path.dirname(os.path.abspath(__file__)))
 import vcheck  # noqa: E402
 
 MODULES = {
+    "C07": "p_lang",
     "C09": "p_bcl",
     "C10": "p_c10",
     "C11": "p_bcl",
